@@ -37,6 +37,7 @@ class Scenario:
         self.in_cb = False
         self.fires = 0
         self.problems = []
+        self.by_log = []
 
     def callback(self, *a, **kw):
         env = self.env
@@ -80,6 +81,13 @@ class Scenario:
         self.log.append(("create", self.env.now))
         self.timer = Timer(self.env, c["timeout"], self.callback, auto_restart=c["auto"], **kw)
 
+    def bystander(self):
+        """a second, untouched one-shot timer in the same environment: timers share nothing"""
+        t0, tau = self.case["bystander"]
+        yield self.env.timeout(t0)
+        self.by_due = self.env.now + tau
+        Timer(self.env, tau, lambda *a, **kw: self.by_log.append((self.env.now, a, kw)), args=["by", 0])
+
     def actor(self, script):
         for delay, act in script:
             yield self.env.timeout(delay)
@@ -93,6 +101,8 @@ class Scenario:
         # creator may be started before or after the actors (decides trigger order at coinciding instants)
         if order % 2:
             procs = procs[1:] + procs[:1]
+        if c.get("bystander"):
+            procs.insert(len(procs) // 2, self.bystander)
         for p in procs:
             env.process(p())
         n = 0
@@ -196,6 +206,12 @@ def run_case(case):
     exhausted = sc.run()
     stats = judge(case, sc.log, exhausted)
     classes = {k for k, v in stats.items() if v and k not in ("fires", "spec")}
+    if case.get("bystander") and getattr(sc, "by_due", HORIZON) < HORIZON:
+        want = [(sc.by_due, ("by", 0), {})]
+        if sc.by_log != want:
+            raise Violation("C19.bystander", f"a second, untouched one-shot timer (created {case['bystander'][0]} after the start, "
+                                             f"timeout {case['bystander'][1]}) fired {sc.by_log}, expected {want}", "C19.bystander")
+        classes.add("second timer in the same environment")
     if stats["fires"] >= 2:
         classes.add(">=2 firings")
     if not stats["spec"]:
@@ -235,6 +251,7 @@ def _strategy(tier, taus, delays):
             "order": st.integers(0, 1),
             "actors": st.lists(actor2, min_size=1, max_size=3),
             "cb": st.lists(cb2, max_size=4),
+            "bystander": st.one_of(st.none(), st.tuples(delay, tau).map(list)),
         })
     return tau.flatmap(build)
 
@@ -253,7 +270,7 @@ PROP = Property(
           "next firing. Non-trivial = a call at an expiry instant AND (a restart from the callback OR two calls at one instant)."),
     facets=[Facet("scenarios", strategy, run_case, quick=3000, thorough=20000,
                   essential=["op_at_expiry_before_fire", "op_at_expiry_after_fire", "op_from_callback_restart",
-                             "op_from_callback_stop", "two_ops_one_instant", "scalar args", "falsy scalar argument (0, '', False)", "restart_pending",
+                             "op_from_callback_stop", "two_ops_one_instant", "second timer in the same environment", "scalar args", "falsy scalar argument (0, '', False)", "restart_pending",
                              "restart_after_stop"])],
     assumptions=["same-instant order of a call and an expiry is taken from the harness log (DESIGN 3.5 rule 1)"],
 )
